@@ -17,7 +17,27 @@ What the theorems rest on (Restful/Lemmas/Panic.lean):
   status is locked only if the other one is, so "nothing had been written" transfers and the recover
   handler's first `WriteHeader`/`Write` decides the status, through a compressing writer as well;
 * every path through every entry point ends with the `Close` of whoever installed the compressing
-  writer, so the ledger is balanced and the coded stream complete, panic or not.
+  writer, so the ledger is balanced and the coded stream complete, panic or not;
+* a second simulation for the BODY (`runChain_relEq`, `Vis`: same chain, same context, hence the same
+  bytes): what the client of the real run will see after decoding is, at every moment, what the
+  recorder of the run without coding holds; the recover handler runs on a writer that is not closed,
+  so its writes are appended to exactly that (`serveCore_body`).
+
+What `c10Holds` demands of the recover handler, besides "nothing escapes" (the reviewer's two points):
+* the CALL COUNT whichever handler is installed: `o.recov + o.recovDefault` is 1 iff a panic is raised.
+  A custom handler of the harness counts its own calls (`recov`); the calls of the library's own
+  handler `logStackOnRecover` are counted by the harness through the package logger (one
+  "recover from panic situation" entry per call, `recovDefault`); with a custom handler installed
+  the library's must not run at all.  The model's observation (`Spec.obsOf`) counts every call in
+  `recov`.
+* the BODY the client sees after a recovered panic (`Spec.c10Body`): with a custom handler exactly
+  what had been written when the panic was raised — the body of the run without coding and recovery,
+  NOT the model's own answer to the request — followed by the writes of the handler's script
+  (`Spec.scriptWrites`), decoded from a complete stream when the response is coded (`C10_body`);
+  with the library's handler what had been written is a prefix and something follows (the stack
+  text is not comparable, `C10_body_default`).  Where what had been written contains a message text
+  of the library's own service-error writer (which no property compares) only the end of the body
+  (custom handler) resp. its non-emptiness is demanded.
 
 Scope of recovery (`Serve.Panic.covered`, the same Boolean as `covered` in `Spec.c10Holds`): the
 chains the framework builds — routed requests (`Dispatch`, `ServeHTTP` → `dispatch`) and
@@ -52,8 +72,12 @@ open Serve Serve.Panic
     request, provided the custom recover handler (if recovery is on) does not itself panic before it
     wrote anything.  Clause by clause: recovery on and a covered entry point (routed, or
     `HandleWithFilter` with container filters) — nothing escapes, the ledger is balanced and the coded
-    stream complete, the recover handler is called once iff the request raises a panic, and if nothing
-    had been written before the panic the client sees the recover handler's status (500 by default);
+    stream complete, the recover handler (custom or the library's) is called once iff the request
+    raises a panic and the library's handler never runs besides a custom one, if nothing had been
+    written before the panic the client sees the recover handler's status (500 by default), and after
+    a panic the (decoded) body the client sees is what had been written before the panic followed by
+    what the recover handler writes (custom handler: exactly its script's writes; the library's
+    handler: something, the stack text is not comparable);
     otherwise (recovery off, or a plain handler called directly) — the panic reaches the caller
     unchanged and the ledger is balanced. -/
 theorem C10_recovery (E : ReEnv) (cfg : Serve.Cfg) (e : Serve.Entry) (sr : Serve.SReq)
@@ -79,16 +103,21 @@ theorem C10_recovery (E : ReEnv) (cfg : Serve.Cfg) (e : Serve.Entry) (sr : Serve
       exact hesc
     | true =>
       rw [hco] at hesc hn
-      simp only [Bool.and_self, if_true, Bool.and_true, Bool.and_eq_true, Bool.or_eq_true,
-        beq_iff_eq, Bool.not_eq_true', Bool.and_eq_false_imp]
-      refine ⟨⟨?_, Or.inr ?_⟩, ?_⟩
-      · simp only [Spec.obsOf]
+      simp only [Bool.and_self, if_true] at hesc hn
+      simp only [Bool.and_self, if_true, Bool.and_true, Bool.and_eq_true]
+      refine ⟨⟨⟨⟨?_, ?_⟩, ?_⟩, ?_⟩, ?_⟩
+      · -- nothing escapes
+        simp only [Spec.obsOf]
         rw [hesc]
         rfl
-      · simp only [Spec.obsOf]
+      · -- one recover call iff a panic is raised (the model counts every call in `recov`)
+        simp only [Spec.obsOf, Nat.add_zero, beq_iff_eq]
         rw [hn, hraw]
-        rfl
-      · rw [hraw]
+      · -- `obsOf` attributes no call to the library's handler separately
+        exact Bool.or_eq_true_iff.mpr (Or.inr rfl)
+      · -- the status, if nothing had been written
+        simp only [Bool.or_eq_true, beq_iff_eq, Bool.not_eq_true', Bool.and_eq_false_imp]
+        rw [hraw]
         by_cases hp : (raised E cfg e sr).isSome = true
         · cases hst : (serve E (rawCfg cfg) e {} (rawReq sr)).rc.status with
           | some d => exact Or.inl (fun _ => rfl)
@@ -99,6 +128,15 @@ theorem C10_recovery (E : ReEnv) (cfg : Serve.Cfg) (e : Serve.Entry) (sr : Serve
             rw [serve_eq]
             exact this
         · exact Or.inl (fun h => absurd h hp)
+      · -- the body after a panic
+        rw [hraw]
+        cases hp : (raised E cfg e sr).isSome with
+        | false => rfl
+        | true =>
+          simp only [Bool.not_true, Bool.false_or]
+          apply c10Body_of_eq
+          rw [obsOf_body, serve_eq, serve_eq]
+          exact serveCore_body E cfg e sr hr hco hp
 
 /-- the scope of recovery in `Spec.c10Holds`, spelled out: routed entry points, and
     `HandleWithFilter` on a container with at least one filter -/
@@ -154,6 +192,44 @@ theorem C10_status_default (E : ReEnv) (cfg : Cfg) (e : Entry) (w : World) (sr :
   have hrec : Spec.recoverPanicsEarly cfg = false := by simp [Spec.recoverPanicsEarly, hd]
   rw [C10_status E cfg e w sr he hr hrec hp hnothing]
   simp [Spec.recoverStatus, hd]
+
+/-- Recovery on, every covered entry point, a custom recover handler: after a panic — raised anywhere,
+    before or after output was written — the body the client sees (decoded when a coding is on, and
+    then from a complete stream) is exactly what had been written when the panic was raised (the body
+    of the same request served without coding and without recovery) followed by the writes of the
+    recover handler's script.  The handler was handed a writer that still works and, when the
+    response is being encoded, goes through the coding. -/
+theorem C10_body (E : ReEnv) (cfg : Cfg) (e : Entry) (w : World) (sr : SReq)
+    (he : e = .dispatch ∨ e = .serveDispatch ∨ ((e = .muxHandleF ∨ e = .serveHandleF) ∧ cfg.cfilters ≠ []))
+    (hr : cfg.recover = true) (sc : List Act) (hsc : cfg.recoverScript = some sc)
+    (hp : (raised E cfg e sr).isSome = true) :
+    (Spec.obsOf (serve E cfg e w sr)).body =
+        (serve E { Spec.noCoding cfg with recover := false } e {} { sr with acceptEncoding := [] }).rc.body ++
+          Spec.scriptWrites sc ∧
+      (Spec.obsOf (serve E cfg e w sr)).complete = true := by
+  have hco : covered cfg e = true := (covered_iff cfg e).mpr he
+  refine ⟨?_, ?_⟩
+  · rw [obsOf_body, serve_eq, serve_eq, serveCore_body E cfg e sr hr hco hp]
+    simp only [recoverWrites, hsc]
+  · have hc := serve_closed E cfg e w sr
+    simp only [Spec.obsOf]
+    cases h : (serve E cfg e w sr).rc.comp with
+    | none => rfl
+    | some c => exact hc c h
+
+/-- … and with the library's own handler (`logStackOnRecover`): what had been written is still
+    there and a non-empty text follows it (the stack trace; the model writes a placeholder). -/
+theorem C10_body_default (E : ReEnv) (cfg : Cfg) (e : Entry) (w : World) (sr : SReq)
+    (he : e = .dispatch ∨ e = .serveDispatch ∨ ((e = .muxHandleF ∨ e = .serveHandleF) ∧ cfg.cfilters ≠ []))
+    (hr : cfg.recover = true) (hd : cfg.recoverScript = none)
+    (hp : (raised E cfg e sr).isSome = true) :
+    ∃ text, text ≠ [] ∧
+      (Spec.obsOf (serve E cfg e w sr)).body =
+        (serve E { Spec.noCoding cfg with recover := false } e {} { sr with acceptEncoding := [] }).rc.body ++ text := by
+  have hco : covered cfg e = true := (covered_iff cfg e).mpr he
+  refine ⟨"<stack>".toList, stack_ne_nil, ?_⟩
+  rw [obsOf_body, serve_eq, serve_eq, serveCore_body E cfg e sr hr hco hp]
+  simp only [recoverWrites, hd]
 
 /-- Recovery off (the default): the panic the request raises reaches the caller unchanged — for
     every entry point. -/
@@ -455,6 +531,73 @@ example :
     Spec.c10Holds E0 cfgOff .dispatch early { oOff with escaped := none } = false ∧
     Spec.c10Holds E0 cfgOff .dispatch early { oOff with escaped := some "other".toList } = false ∧
     Spec.c10Holds E0 cfgOff .dispatch early { oOff with rel := 0 } = false := by
+  decide
+
+/-- `C10_body`, `C10_body_default` -/
+example := C10_body E0 cfg .dispatch ⟨4, 4⟩ late (.inl rfl) rfl _ rfl (by decide)
+example := C10_body E0 cfg .serveHandleF {} late (.inr (.inr ⟨.inr rfl, by decide⟩)) rfl _ rfl
+example := C10_body_default E0 cfgDefault .dispatch {} late (.inl rfl) rfl rfl (by decide)
+
+/-- the same without any coding; the default handler's observation as the model makes it (`oD`) and
+    as the harness makes it (`oDh`: the custom-handler counter stays 0, one log entry of the library's
+    handler, the body ends with a stack text of the library's, not with the model's placeholder) -/
+def cfgPlain : Cfg := { cfg with encoding := false }
+def oLp : Spec.Obs := Spec.obsOf (serve E0 cfgPlain .dispatch {} late)
+def oD : Spec.Obs := Spec.obsOf (serve E0 cfgDefault .dispatch {} late)
+def oDh : Spec.Obs := { oD with recov := 0, recovDefault := 1, body := "yrecover from panic situation: - late".toList }
+/-- a container filter panics after the library's own service-error writer answered a request no
+    route matches (`After`), or before it passed control on (`Before`) -/
+def cfgErrAfter : Cfg := { cfg with cfilters := [fl 1 .pass [] [.panic "after".toList]] }
+def cfgErrBefore : Cfg := { cfg with cfilters := [fl 1 .pass [.panic "before".toList] []] }
+def nowhere : SReq := rq "/nowhere"
+def oEA : Spec.Obs := Spec.obsOf (serve E0 cfgErrAfter .dispatch {} nowhere)
+def oEB : Spec.Obs := Spec.obsOf (serve E0 cfgErrBefore .dispatch {} nowhere)
+
+example :
+    oLp.coded = false ∧ oLp.body = "yr".toList ∧ Spec.c10Holds E0 cfgPlain .dispatch late oLp = true ∧
+    oD.body = "y<stack>".toList ∧ oD.recov = 1 ∧ oD.recovDefault = 0 ∧ oD.status = 200 ∧
+    Spec.c10Holds E0 cfgDefault .dispatch late oD = true ∧
+    Spec.c10Holds E0 cfgDefault .dispatch late oDh = true ∧
+    oEA.status = 404 ∧ oEA.recov = 1 ∧ oEB.status = 503 ∧ oEB.body = "r".toList ∧
+    Spec.c10Holds E0 cfgErrAfter .dispatch nowhere oEA = true ∧
+    Spec.c10Holds E0 cfgErrBefore .dispatch nowhere oEB = true := by
+  decide
+
+/-- **The body clause is not trivially true.**
+    (i) A recovered panic whose body lacks the recover handler's text (no coding; with a coding; when
+    nothing had been written before), or has it in front of what had been written, or has it twice.
+    (ii) A coded response whose recover text was written outside the coding (cf. seeded/C10-5, the
+    recover handler is handed the raw ResponseWriter): the coded stream, decoded, holds only what was
+    written before the panic — with a strict decoder the observation is moreover incomplete (the
+    recover text sits in front of the stream), which `c10Holds` rejects as well.
+    The library's handler: nothing follows what had been written; what had been written is lost.
+    The library's own error text is excused narrowly: only when the error writer ran before the
+    panic, and then the recover handler's text must still end the body. -/
+example :
+    Spec.c10Holds E0 cfgPlain .dispatch late { oLp with body := "y".toList } = false ∧
+    Spec.c10Holds E0 cfgPlain .dispatch late { oLp with body := "ry".toList } = false ∧
+    Spec.c10Holds E0 cfgPlain .dispatch late { oLp with body := "yrr".toList } = false ∧
+    Spec.c10Holds E0 cfg .dispatch early { oE with body := [] } = false ∧
+    oL.coded = true ∧ oL.ce = "gzip".toList ∧ oL.complete = true ∧
+    Spec.c10Holds E0 cfg .dispatch late { oL with body := "y".toList } = false ∧
+    Spec.c10Holds E0 cfg .dispatch late { oL with body := [], complete := false } = false ∧
+    Spec.c10Holds E0 cfgDefault .dispatch late { oDh with body := "y".toList } = false ∧
+    Spec.c10Holds E0 cfgDefault .dispatch late { oDh with body := "recover from panic situation".toList } = false ∧
+    Spec.c10Holds E0 cfgErrAfter .dispatch nowhere { oEA with body := "some other 404 textr".toList } = true ∧
+    Spec.c10Holds E0 cfgErrAfter .dispatch nowhere { oEA with body := "some other 404 text".toList } = false ∧
+    Spec.c10Holds E0 cfgErrBefore .dispatch nowhere { oEB with body := "some 404 textr".toList } = false := by
+  decide
+
+/-- **The recover-call count with the library's handler is not trivially true**: no log entry of
+    `logStackOnRecover` although a panic was raised; two; one although no panic was raised; with a
+    custom handler installed: the library's handler ran instead of it, or besides it. -/
+example :
+    Spec.c10Holds E0 cfgDefault .dispatch late { oDh with recovDefault := 0 } = false ∧
+    Spec.c10Holds E0 cfgDefault .dispatch late { oDh with recovDefault := 2 } = false ∧
+    Spec.c10Holds E0 cfgDefault .dispatch ok (Spec.obsOf (serve E0 cfgDefault .dispatch {} ok)) = true ∧
+    Spec.c10Holds E0 cfgDefault .dispatch ok { Spec.obsOf (serve E0 cfgDefault .dispatch {} ok) with recovDefault := 1 } = false ∧
+    Spec.c10Holds E0 cfg .dispatch late { oL with recov := 0, recovDefault := 1 } = false ∧
+    Spec.c10Holds E0 cfg .dispatch late { oL with recovDefault := 1 } = false := by
   decide
 
 end C10Example
